@@ -57,7 +57,7 @@ ResolveCase(e) ==
      THEN /\ CheckAll({"C09", "C08"}, <<"resolved-set-is-not-the-closure", e.id>>, {t.id : t \in SeqToSet(o.targets)} = Reach(G, R))
           /\ CheckAll({"C19"}, <<"both-spellings-must-denote-one-target", e.id>>, SeqToSet(o.roots) = R)
           /\ \A i \in Reach(G, R) \cap {t.id : t \in SeqToSet(o.targets)} :
-               /\ CheckAll({"C09", "C19"}, <<"reference-resolved-to-the-wrong-target", e.id, i>>,
+               /\ CheckAll({"C09", "C19", "C01"}, <<"reference-resolved-to-the-wrong-target", e.id, i>>,
                            SeqToSet(ObsTarget(o, i).deps) = ExpectedDeps(G, i))
                /\ CheckAll({"C13"}, <<"inherited-input-wrong", e.id, i>>, SeqToSet(ObsTarget(o, i).inp) = ExpectedIn(G, i))
                /\ CheckAll({"C13"}, <<"own-output-wrong", e.id, i>>, SeqToSet(ObsTarget(o, i).out) = SeqToSet(G.ownOut[i]))
